@@ -73,10 +73,31 @@ type session struct {
 	// check15: compare the raw dump before/after every read-only or no-op call
 	check15  bool
 	sizeTick int
+	// the updates applied to each tree so far (generator literals), for building a replica that saw no queries
+	updates map[int][]update
+}
+
+type update struct {
+	del bool
+	lit string
+	val int
 }
 
 func newSession(tr *transcript) *session {
-	return &session{tr: tr, trees: map[int]drvTree{}, specs: map[int]string{}, dead: map[int]bool{}}
+	return &session{tr: tr, trees: map[int]drvTree{}, specs: map[int]string{}, dead: map[int]bool{}, updates: map[int][]update{}}
+}
+
+// replica builds a new tree of the same kind by the same updates and none of the queries
+func (s *session) replica(id int) drvTree {
+	t := newTree(s.specs[id])
+	for _, u := range s.updates[id] {
+		if u.del {
+			t.Delete(u.lit)
+		} else {
+			t.Insert(u.lit, u.val)
+		}
+	}
+	return t
 }
 
 func (s *session) newTree(id int, spec string) {
@@ -100,9 +121,11 @@ func (s *session) exec(op string, id int, args ...string) string {
 	case "ins":
 		v, _ := strconv.Atoi(args[1])
 		cmd = fmt.Sprintf("ins %d %s %s", id, tl(args[0]), args[1])
+		s.updates[id] = append(s.updates[id], update{false, args[0], v})
 		out = safely(func() string { t.Insert(args[0], v); return "ok" })
 	case "del":
 		cmd = fmt.Sprintf("del %d %s", id, tl(args[0]))
+		s.updates[id] = append(s.updates[id], update{true, args[0], 0})
 		var before string
 		if s.check15 {
 			before = safely(t.Dump)
@@ -215,6 +238,8 @@ func (s *session) exec(op string, id int, args ...string) string {
 		tsel := append([]string{}, sel...)
 		if sel[0] == "range" {
 			tsel[1], tsel[2] = tl(sel[1]), tl(sel[2])
+		} else if sel[0] == "rangeopen" {
+			tsel[1] = tl(sel[1])
 		}
 		cmd = fmt.Sprintf("selfseq %d %s %d %d", id, strings.Join(tsel, " "), stop, passes)
 		out = s.ro(t, func() string {
@@ -252,6 +277,11 @@ func (s *session) exec(op string, id int, args ...string) string {
 				if v, ok := t.Get(e.k); !ok || v != e.v {
 					return "yielded-pair-is-not-stored:" + e.k
 				}
+			}
+			// a tree built by the same updates and none of the queries answers the same (read-only calls leave no trace)
+			fresh, _ := s.replica(id).Seq(sel, 0, 1)
+			if renderKVs(fresh[0]) != renderKVs(full) {
+				return fmt.Sprintf("differs-from-a-tree-built-by-the-same-updates-without-the-queries:%s/%s", renderKVs(full), renderKVs(fresh[0]))
 			}
 			return "ok"
 		})
@@ -493,6 +523,19 @@ func (h *history) insert(lit string) {
 			}
 		}
 	}
+	if _, ok := h.present[c]; !ok && h.cfg.alpha {
+		// byte-string keys are stored with a 0x00 terminator; the contract (known finding D3) is that no stored key
+		// followed by 0x00 starts another stored key – automatic for keys without 0x00, checked for the others
+		tk := append(unhex(lit), 0)
+		for _, p := range h.order {
+			ptk := append(unhex(p), 0)
+			if bytes.HasPrefix(tk, ptk) || bytes.HasPrefix(ptk, tk) {
+				h.skipped++
+				h.s.tr.stats["alpha-nul-proviso-skips"]++
+				return
+			}
+		}
+	}
 	h.nextVal++
 	h.s.exec("ins", h.id, lit, strconv.Itoa(h.nextVal))
 	if _, ok := h.present[c]; !ok {
@@ -644,7 +687,11 @@ func (h *history) query() {
 				a, b = b, a
 			}
 			st, ps := h.stopPasses()
-			h.s.exec("selfseq", h.id, "range", a, b, st, ps)
+			if h.r.Intn(3) == 0 {
+				h.s.exec("selfseq", h.id, "rangeopen", a, st, ps)
+			} else {
+				h.s.exec("selfseq", h.id, "range", a, b, st, ps)
+			}
 			h.s.tr.stats["coll-range-selfchecks"]++
 			return
 		}
@@ -725,6 +772,79 @@ func (h *history) query() {
 	}
 }
 
+// mergeDance (byte-string trees, empty tree): a node4 with a compressed path of a chosen length keeps one inner
+// child, so that the collapse folds parent path + branch byte + child path into the child – for path lengths
+// around the inline limit and around 2^8 and 2^9.
+func (h *history) mergeDance() {
+	r := h.r
+	for round := 0; round < 3 && !h.s.dead[h.id]; round++ {
+		lp := pick(r, []int{0, 1, 8, 9, 10, 11, 12, 30, 250, 254, 255, 256, 257, 259, 260, 264, 265, 266, 300, 511, 512, 515})
+		lc := pick(r, []int{0, 1, 5, 8, 9, 10, 11, 30, 250, 256})
+		pre := strings.Repeat("r", lp)
+		inner := pre + "a" + strings.Repeat("c", lc)
+		keys := []string{hexLit([]byte(inner + "1")), hexLit([]byte(inner + "2")), hexLit([]byte(pre + "b"))}
+		for _, k := range keys {
+			h.insert(k)
+		}
+		h.s.exec("dump", h.id)
+		h.remove(keys[2])
+		h.s.exec("dump", h.id)
+		h.s.exec("get", h.id, keys[0])
+		h.s.exec("get", h.id, keys[1])
+		h.s.exec("get", h.id, keys[2])
+		h.s.exec("seq", h.id, "all", "0", "1")
+		h.s.exec("seq", h.id, "prefix", hexLit([]byte(pre)), "0", "1")
+		h.insert(hexLit([]byte(inner + "3")))
+		h.s.exec("dump", h.id)
+		for len(h.order) > 0 && !h.s.dead[h.id] {
+			h.remove(h.order[len(h.order)-1])
+		}
+		h.s.exec("size", h.id)
+		h.s.tr.stats["merge-dances"]++
+	}
+}
+
+// balancedUpdateDance: the same read-only calls before and after an update that leaves Size() where it was but
+// raises the maximum (whatever a query remembers must not be trusted on the strength of the key count)
+func (h *history) balancedUpdateDance() {
+	if len(h.order) < 2 || h.s.dead[h.id] {
+		return
+	}
+	isColl := h.cfg.collName != ""
+	queries := func() {
+		h.s.exec("max", h.id)
+		h.s.exec("seq", h.id, "topk", "2", "0", "1")
+		h.s.exec("seq", h.id, "back", "2", "1")
+		if mn, _, ok := h.s.trees[h.id].Min(); ok {
+			switch {
+			case isColl:
+				h.s.exec("selfseq", h.id, "rangeopen", mn, "0", "2")
+			case h.cfg.alpha:
+				h.s.exec("seq", h.id, "rangeopen", mn, "0", "1")
+			}
+		}
+		h.s.exec("size", h.id)
+	}
+	queries()
+	mx, _, ok := h.s.trees[h.id].Max()
+	if !ok {
+		return
+	}
+	h.remove(pick(h.r, h.order))
+	before := len(h.order)
+	switch {
+	case isColl || h.cfg.alpha:
+		h.insert(hexLit(append(unhex(mx), 'z')))
+	default:
+		h.insert(h.genKey())
+	}
+	if len(h.order) == before {
+		h.insert(h.genKey())
+	}
+	queries()
+	h.s.tr.stats["balanced-update-dances"]++
+}
+
 // singletonDance: the tree holds no key or exactly one; every branch that treats the root leaf specially is taken
 // with queries interleaved (which must not matter)
 func (h *history) singletonDance() {
@@ -761,6 +881,12 @@ func (h *history) run() {
 	ops := h.cfg.ops
 	if len(h.order) == 0 {
 		h.singletonDance()
+		if h.cfg.alpha && h.r.Intn(2) == 0 {
+			for len(h.order) > 0 {
+				h.remove(h.order[0])
+			}
+			h.mergeDance()
+		}
 	}
 	phaseLeft := 0
 	phase := "grow"
@@ -806,7 +932,11 @@ func (h *history) run() {
 			h.remove(k)
 			mut = true
 		default:
-			h.query()
+			if r.Intn(25) == 0 {
+				h.balancedUpdateDance()
+			} else {
+				h.query()
+			}
 		}
 		if mut {
 			if h.cfg.dumpAll || r.Intn(10) == 0 {
@@ -817,6 +947,7 @@ func (h *history) run() {
 			}
 		}
 	}
+	h.balancedUpdateDance()
 	if !h.s.dead[h.id] {
 		h.probeSweep()
 	}
@@ -1231,12 +1362,14 @@ func histCfgsFor(family string, r *rand.Rand) []histCfg {
 			out = append(out, histCfg{spec: "num " + ty, unis: numUniverses(ty), numTy: ty})
 		}
 	case "coll":
-		for _, c := range collCfgs {
+		for i, c := range collCfgs {
 			for _, kt := range []string{"string", "bytes"} {
 				out = append(out, histCfg{spec: "coll " + kt + " " + c.name, unis: collUniverses(), collName: c.name})
+				if i == 0 && kt == "string" {
+					out = append(out, histCfg{spec: "coll runes root", unis: collUniverses(), collName: "root"})
+				}
 			}
 		}
-		out = append(out, histCfg{spec: "coll runes root", unis: collUniverses(), collName: "root"})
 	case "comp":
 		for i := 0; i < 6; i++ {
 			fs := randSchema(r)
@@ -1303,6 +1436,14 @@ func runTreeMode(cfg treeRunCfg, tr *transcript) {
 					}
 				}
 			}
+			if fam == "alpha" && i == 1 {
+				// every run has one history whose keys contain and end in 0x00
+				for _, u := range hc.unis {
+					if u.name == "U7nul" {
+						h.uni = append(h.uni, u, u)
+					}
+				}
+			}
 			if fam == "comp" && i < 2 {
 				// the long schemas: branch points at every depth in every run
 				h.uni = []universe{hc.unis[2], hc.unis[2], hc.unis[1]}
@@ -1341,7 +1482,28 @@ var rogueTrees []drvTree
 // rogueStep performs out-of-contract operations on private trees whose own results are not judged.
 func rogueStep(r *rand.Rand) {
 	if len(rogueTrees) < 3 {
-		rogueTrees = append(rogueTrees, newTree("alpha bytes"), newTree("alpha string"), newTree("comp u8,s"))
+		rogueTrees = append(rogueTrees, newTree("alpha bytes"), newTree("alpha string"), newTree("comp u8,s"),
+			newTree("coll string ignorecase"), newTree("coll bytes root"))
+	}
+	if r.Intn(3) == 0 {
+		// collation trees fed spellings their collator cannot tell apart (outside C08's proviso): same letters in
+		// another case under IgnoreCase, composed and decomposed accents under the root collator
+		safely(func() string {
+			t := rogueTrees[3+r.Intn(2)]
+			w := string(randBytes(r, []byte("abcde"), 1, 3))
+			pairs := [][2]string{{w, strings.ToUpper(w)}, {w + "\u00e9", w + "e\u0301"}, {w + "x", w + "X"}}
+			pr := pairs[r.Intn(len(pairs))]
+			t.Insert(hexLit([]byte(pr[0])), 1)
+			t.Insert(hexLit([]byte(pr[1])), 2)
+			t.Insert(hexLit([]byte(w+"q")), 3)
+			t.Insert(hexLit(randBytes(r, []byte("abcde"), 1, 3)), 4)
+			t.Get(hexLit([]byte(pr[1])))
+			if r.Intn(2) == 0 {
+				t.Delete(hexLit([]byte(pr[0])))
+			}
+			return ""
+		})
+		return
 	}
 	safely(func() string {
 		t := rogueTrees[r.Intn(2)]
